@@ -22,7 +22,7 @@ func sp_exist(d *Bloomfilter, h uint64) bool {
 }
 
 // exported for the contracts of package internal
-func Sp_wfBF(d *Bloomfilter) bool { return sp_wfBF(d) }
+func Sp_wfBF(d *Bloomfilter) bool            { return sp_wfBF(d) }
 func Sp_exist(d *Bloomfilter, h uint64) bool { return sp_exist(d, h) }
 
 func spec_nextPowerOfTwo(i uint32) (n uint32) {
